@@ -558,7 +558,10 @@ def inline_single_use_locals(fnode):
                 if not isinstance(holder, ast.For):
                     continue
             reads = {x.id for x in ast.walk(n.value) if isinstance(x, ast.Name)}
-            if any(n.lineno < ln <= holder.lineno for r_ in reads for ln in stores.get(r_, [])):
+            # (a store made by the reading statement itself happens after its right-hand side has been evaluated)
+            own_store_ok = isinstance(holder, (ast.Assign, ast.AugAssign, ast.Return, ast.Expr)) and \
+                getattr(holder, 'end_lineno', holder.lineno) == holder.lineno
+            if any((n.lineno < ln < holder.lineno) or (ln == holder.lineno and not own_store_ok) for r_ in reads for ln in stores.get(r_, [])):
                 continue
             # an assignment that sits in a branch / loop the read is not in does not dominate it
             pn, ph = parent.get(id(n)), None
